@@ -8,32 +8,9 @@ from .base import Check
 OPS = ("C ", "R ", "A ", "X ", "T ")
 
 
-def _walk(lines, upto):
-    """State a reader of the (shrunk) case has at its `upto`-th line (1-based): the last accepted acknowledge
-    operation that is still in force, as (via, requested expiry), or None."""
-    cur = None
-    for l in lines[:upto]:
-        w = l.split()
-        if not w:
-            continue
-        obs = l.split(" | ")[1].split() if " | " in l else []
-        if w[0] == "C":
-            cur = None
-        elif w[0] == "A" and obs and obs[0] == "1":
-            cur = (w[1], int(w[5]))
-        elif obs and obs[1] == "0":
-            cur = None          # nothing acknowledged at this look any more
-    return cur
-
-
 def signature(lines, upto, clause):
-    """Cheap pre-classification of a failing look, so that failures of the same clause with different causes are
-    shrunk and reported separately."""
-    if clause != "expiry_clears":
-        return ""
-    cur = _walk(lines, upto - 1)
-    if cur and cur[0] == "x" and cur[1] != 0:
-        return ":ext-expire"
+    """Hook for a cheap pre-classification of a failing look, so that failures of one clause with different causes can be
+    shrunk and reported separately.  No known finding is open for C06, so there is nothing to tell apart."""
     return ""
 
 
@@ -41,8 +18,8 @@ class C06(Check):
     prop = "C06"
     required_theorems = ["normal_cleared_by_state_change", "sticky_cleared_only_by_recovery", "unchanged_state_keeps_ack",
                          "expiry_clears", "handled_iff", "ack_notify_once", "refuse_ok_or_acked", "cleared_event_once",
-                         "ack_comments_removed", "problem_withheld_while_acked",
-                         "model_trace_meets_spec_partial", "model_trace_meets_spec_counterexample"]
+                         "ack_comments_removed", "problem_withheld_while_acked", "stored_expiry_is_requested",
+                         "model_trace_meets_spec", "model_trace_meets_spec_from_init"]
     technique = ("Lean 4 proof (closed form of every operation + relation between the specification's bookkeeping and the model state, "
                  "induction over the history; ghost-counter balance for the events) over a hand-written model; correspondence by exhaustive + "
                  "random differential execution of the real API actions, external commands, cluster handlers and ProcessCheckResult")
@@ -50,8 +27,8 @@ class C06(Check):
                   "ACKNOWLEDGE_*_PROBLEM[_EXPIRE], event::SetAcknowledgement; normal/sticky, any expiry, notify, persistent), remove-acknowledgement "
                   "(three entry points), check results and time advances with arbitrary times, the model's trace satisfies the executable "
                   "specification of the property (clearing rules, expiry, handled, one Acknowledgement notification, refusals, one cleared event per "
-                  "clearing, comment removal) — except that the whole-trace theorem carries the hypothesis 'no ACKNOWLEDGE_*_PROBLEM_EXPIRE with a "
-                  "non-zero expire time' (known finding F-C06a, with a kernel-checked counterexample). The model is tied to the code by running the "
+                  "clearing, comment removal), without further hypothesis (F-C06a, found by this check, is fixed in /repo by 6eaa5f1 and kept as a "
+                  "regression case). The model is tied to the code by running the "
                   "real entry points on real Host/Service objects over all sequences of 4 (5 thorough) operations from a 12-symbol alphabet x "
                   "host/service x max_check_attempts 1..2 plus random histories with times, and diffing every observation; the same specification "
                   "predicate is evaluated on the implementation's own trace")
@@ -112,7 +89,8 @@ class C06(Check):
                     for k, v in core.parse_kv(l).items():
                         stats[k] = stats.get(k, 0) + int(v)
 
-        # corpus first: hand-written seeds and minimised past disagreements (the witness of F-C06a among them)
+        # corpus first: hand-written seeds and minimised past disagreements (the former witness of F-C06a among them,
+        # now a regression case that has to pass)
         corpus_dir = os.path.join(core.ROOT, "corpus", "C06")
         runs = []
         if os.path.isdir(corpus_dir):
@@ -218,35 +196,8 @@ class C06(Check):
         return res
 
     def matches_known(self, entry, finding):
-        """F-C06a, narrowly: the minimised witness fails exactly the clause `expiry_clears`, and at the failing look the
-        acknowledgement in force was accepted through ACKNOWLEDGE_*_PROBLEM_EXPIRE with a non-zero expire time that has
-        passed, is still reported as set, and its stored expiry is 0."""
-        if entry.get("classifier") != "c06_ext_expire_timestamp_as_change_time":
-            return False
-        if finding.kind != "spec" or finding.what != "spec:C06:expiry_clears:ext-expire":
-            return False
-        lines = finding.case_lines
-        drv = finding.detail.get("driver_on_minimised") or []
-        if not drv:
-            return False
-        for d in drv:
-            kv = core.parse_kv(d)
-            if kv.get("clause") != "expiry_clears":
-                return False
-            n = int(kv["line"])
-            cur = _walk(lines, n - 1)
-            if not (cur and cur[0] == "x" and cur[1] != 0):
-                return False
-            look = lines[n - 1]
-            if " | " not in look:
-                return False
-            w, obs = look.split(" | ")[0].split(), look.split(" | ")[1].split()
-            now = int(w[-1])
-            if w[0] == "A" and obs[0] == "1":
-                return False
-            if not (cur[1] < now and obs[1] != "0" and obs[2] == "0"):
-                return False
-        return True
+        # F-C06a is fixed (6eaa5f1); no finding of C06 is open, nothing is suppressed
+        return False
 
     def replay(self, path, harness, driver):
         data = json.load(open(path))
